@@ -259,6 +259,29 @@ func C01(c *mon.Ctx) {
 	c.ParFor("tables", len(tables), func(w *mon.W, i int) {
 		check(w, tables[i].e, tables[i].env, "table")
 	})
+	// history independence: every table case again, directly after an evaluation that fails
+	// at the same root operator (pooled scratch state, half-filled caches and the like must
+	// not leak from a failed evaluation into the next result). The oracle is unchanged.
+	failing := map[model.Op][]int{}
+	var anyFailing []int
+	for i, t := range tables {
+		if _, we := model.Eval(t.e, t.env); we != model.ENone {
+			failing[t.e.Op] = append(failing[t.e.Op], i)
+			anyFailing = append(anyFailing, i)
+		}
+	}
+	c.ParFor("tables-after-a-failure", len(tables), func(w *mon.W, i int) {
+		pool := failing[tables[i].e.Op]
+		if len(pool) == 0 {
+			pool = anyFailing
+		}
+		if len(pool) > 0 {
+			p := tables[pool[(i*31+7)%len(pool)]]
+			g := &bridge.Getter{M: bridge.ToEntityMap(p.env), Budget: 100000}
+			CedarEval(bridge.ToNode(p.e), bridge.ToEvalEnv(p.env, g))
+		}
+		check(w, tables[i].e, tables[i].env, "table-after-failure")
+	})
 	n := c.N(40000, 1500000)
 	depth := 5
 	if c.Thorough() {
